@@ -42,11 +42,11 @@ def obligations(tier, ctx):
         for mode in (0, 1, 2):
             obs.append(Ob(name=f"roundtrip_{'typed' if typed else 'dict'}_mode{mode}", params=[("a", "int"), ("b", "int"), ("n", "int")],
                           pre=(["0 <= a <= 2", "0 <= b <= 1", "n in (0, 1)"] if tier == "quick" else ["0 <= a <= 4", "0 <= b <= 4", "0 <= n <= 2"]),
-                          call=f"H.roundtrip(a, b, n, {mode}, {typed})", backend="F", timeout=400,
+                          call=f"H.roundtrip(a, b, n, {mode}, {typed})", backend="F", timeout=400 if tier == "quick" else 1500,
                           family="round trips: two requests (ids 'r1', 5, 0, '5', -7), each answered the carrier's own way"))
     for n in ((2, 3) if tier == "quick" else (0, 1, 2, 3, 4)):
         obs.append(Ob(name=f"undrained_n{n}", params=[("cap", "int"), ("r", "int"), ("e", "bool")], pre=["0 <= cap <= 4", "0 <= r <= 4"] + (["r == 1"] if tier == "quick" else []),
-                      call=f"H.conversation_undrained({n}, cap, r, e)", backend="F", timeout=600, family="the stdio client's notification side stream is never read (symbolic capacity 0..4)"))
+                      call=f"H.conversation_undrained({n}, cap, r, e)", backend="F", timeout=600 if tier == "quick" else 1500, family="the stdio client's notification side stream is never read (symbolic capacity 0..4)"))
     from symcheck import consts as _c
     clim = 110 if tier == "quick" else 410
     obs.append(Ob(name="many_notifications", params=[("k", "int")], pre=[f"0 <= k < {len(_c.size_cases(clim))}"], call=f"H.conversation_many(k, 100, {clim})", backend="P", timeout=1200,
